@@ -101,7 +101,7 @@ def check_property(pid, tier, seed):
                                 "contract_source": u["template"], "status": r.obligations[min(1, len(r.obligations) - 1)]["status"],
                                 "written_out": getattr(r, "sample", None)})
         # ------------------------------------------------------------------ Kani units
-        for k in (spec.get("kani", []) if os.environ.get("VERIF_ENGINES", "") != "verus" else []):
+        for k in (spec.get("kani", []) if os.environ.get("VERIF_ENGINES", "") not in ("verus", "native") else []):
             inject = k.get("inject", ())
             meta = harness_meta(list(k["files"]) + [i["file"] for i in inject])
             sel = [n for n, d in meta.items() if d["tier"] == "quick" or tier == "thorough"]
